@@ -267,7 +267,8 @@ class RealMon(object):
         self.labels = dict(sctx['labels']) if sctx else {}
         self.mon.lastcmd = ''
         self.dev, self.P = dev, DEVS[dev]
-        self.subj = self.mon._mpu.memory._subject
+        _m = self.mon._mpu.memory
+        self.subj = getattr(_m, '_subject', _m)
         assert len(self.subj) == self.P['phys']
         self.subj[:] = template(dev, seed)
         self.mon._mpu.pc = pc
